@@ -37,7 +37,7 @@ fn reference(shapes: &[&Shape], with_shx: bool) -> (Vec<u8>, Vec<u8>) {
 }
 
 /// write_shapes consumes the writer: typed dispatch on the variant.
-fn write_tail<W: std::io::Write + std::io::Seek>(w: ShapeWriter<W>, tail: &[&Shape]) -> Result<(), Error> {
+pub fn write_tail<W: std::io::Write + std::io::Seek>(w: ShapeWriter<W>, tail: &[&Shape]) -> Result<(), Error> {
     macro_rules! go {
         ($variant:ident, $T:ty) => {{
             let v: Vec<&$T> = tail
